@@ -3,6 +3,7 @@ package props
 import (
 	"context"
 	"fmt"
+	"github.com/DOSNetwork/core/p2p/discover"
 	"net"
 	"sort"
 	"strings"
@@ -19,6 +20,7 @@ import (
 func init() {
 	Registry["C17"] = genC17
 	SubRegistry["c17-system"] = subC17System
+	SubRegistry["c17-conntable"] = subC17ConnTable
 }
 
 // ---------------------------------------------------------------- the correlation table, event by event
@@ -405,6 +407,168 @@ func subC17System(arg string) string {
 	return strings.Join(problems, "; ")
 }
 
+// ---------------------------------------------------------------- the connection tables
+
+// arg: ev=<k.id>+<k.id>+...   k: 0 this node requests peer id | 1 peer id requests this node |
+// 2 peer id goes away | 4 peer id comes back (new address) | 3 this node replies to peer id.
+// After every event the handlers get time to settle; prints per event "class:iNum:cNum" with the
+// classes of Models/ConnTable.v's wire (0 handed to an existing live connection, 1 dialled, 2 dial
+// failed, 3 accepted, 5 no client, 6 nothing, 9 a request that should have been served failed)
+func subC17ConnTable(arg string) string {
+	a := parseArg(arg)
+	pa := freePort()
+	addrs := map[string]string{}
+	var amu sync.Mutex
+	mem := &lockedMembers{addrs: addrs, mu: &amu}
+	const npeers = 3
+	peers := make([]p2p.P2PInterface, npeers)
+	startPeer := func(i int) {
+		id := fmt.Sprintf("peer%d", i)
+		port := freePort()
+		amu.Lock()
+		addrs[id] = "127.0.0.1:" + port
+		amu.Unlock()
+		s := startServer(id, port, &staticMembers{addrs: map[string]string{"a": "127.0.0.1:" + pa}})
+		peers[i] = s
+		ch, _ := s.SubscribeMsg(50, vss.Signature{})
+		go func() {
+			for m := range ch {
+				if sig, ok := m.Msg.Message.(*vss.Signature); ok {
+					go s.Reply(context.Background(), m.Sender, m.RequestNonce, &vss.Signature{RequestId: append([]byte("re:"), sig.RequestId...)})
+				}
+			}
+		}()
+	}
+	for i := 0; i < npeers; i++ {
+		startPeer(i)
+	}
+	sa := startServer("a", pa, mem)
+	cha, _ := sa.SubscribeMsg(50, vss.Signature{})
+	go func() {
+		for m := range cha {
+			if sig, ok := m.Msg.Message.(*vss.Signature); ok {
+				go sa.Reply(context.Background(), m.Sender, m.RequestNonce, &vss.Signature{RequestId: append([]byte("re:"), sig.RequestId...)})
+			}
+		}
+	}()
+	time.Sleep(30 * time.Millisecond)
+	up := make([]bool, npeers)
+	for i := range up {
+		up[i] = true
+	}
+	// the size of this node's table of accepted connections, and the number of its dialled connections
+	// as the peers that are up count them (callHandler's own counter is refreshed on removals only)
+	sizes := func() (int, int) {
+		i, _ := p2p.VerifNumOfClient(sa)
+		c := 0
+		for k := 0; k < npeers; k++ {
+			if up[k] {
+				pi, _ := p2p.VerifNumOfClient(peers[k])
+				c += pi
+			}
+		}
+		return i, c
+	}
+	settle := func() (int, int) {
+		// the table sizes are stable for 60 ms
+		li, lc := -1, -1
+		stable := 0
+		for k := 0; k < 100 && stable < 6; k++ {
+			time.Sleep(10 * time.Millisecond)
+			i, c := sizes()
+			if i == li && c == lc {
+				stable++
+			} else {
+				stable = 0
+			}
+			li, lc = i, c
+		}
+		return li, lc
+	}
+	var out []string
+	for n, ev := range strings.Split(a["ev"], "+") {
+		f := strings.Split(ev, ".")
+		if len(f) != 2 {
+			continue
+		}
+		k, id := atoi(f[0]), atoi(f[1])
+		peer := fmt.Sprintf("peer%d", id)
+		i0, c0 := sizes()
+		class := 6
+		switch k {
+		case 0:
+			ctx, cancel := context.WithTimeout(context.Background(), 2*time.Second)
+			tag := fmt.Sprintf("q%d", n)
+			r, err := sa.Request(ctx, []byte(peer), &vss.Signature{RequestId: []byte(tag)})
+			cancel()
+			_, c1 := settle()
+			switch {
+			case err == nil:
+				if sg, ok := r.Msg.Message.(*vss.Signature); !ok || string(sg.RequestId) != "re:"+tag {
+					class = 9
+				} else if c1 > c0 {
+					class = 1
+				} else {
+					class = 0
+				}
+			case !up[id]:
+				class = 2
+			default:
+				class = 9
+			}
+		case 1:
+			ctx, cancel := context.WithTimeout(context.Background(), 2*time.Second)
+			_, err := peers[id].Request(ctx, []byte("a"), &vss.Signature{RequestId: []byte("p")})
+			cancel()
+			i1, _ := settle()
+			switch {
+			case err != nil:
+				class = 9
+			case i1 > i0:
+				class = 3
+			}
+		case 2:
+			peers[id].Leave()
+			up[id] = false
+		case 4:
+			startPeer(id)
+			up[id] = true
+		case 3:
+			ctx, cancel := context.WithTimeout(context.Background(), 2*time.Second)
+			err := sa.Reply(ctx, []byte(peer), 12345, &vss.Signature{RequestId: []byte("stray")})
+			cancel()
+			if err == nil {
+				class = 0
+			} else if strings.Contains(err.Error(), p2p.ErrCanNotFindClient.Error()) {
+				class = 5
+			} else {
+				class = 9
+			}
+		}
+		i2, c2 := settle()
+		out = append(out, fmt.Sprintf("%d:%d:%d", class, i2, c2))
+	}
+	return strings.Join(out, " ")
+}
+
+type lockedMembers struct {
+	addrs map[string]string
+	mu    *sync.Mutex
+}
+
+func (s *lockedMembers) Join([]string) (int, error)                           { return 0, nil }
+func (s *lockedMembers) Leave()                                               {}
+func (s *lockedMembers) Listen(ctx context.Context, o chan discover.P2PEvent) { <-ctx.Done() }
+func (s *lockedMembers) Lookup(id []byte) string {
+	s.mu.Lock()
+	defer s.mu.Unlock()
+	return s.addrs[string(id)]
+}
+func (s *lockedMembers) NumOfPeers() int     { return 3 }
+func (s *lockedMembers) IsAlive() bool       { return true }
+func (s *lockedMembers) MembersIP() []net.IP { return nil }
+func (s *lockedMembers) MembersID() [][]byte { return nil }
+
 // ---------------------------------------------------------------- generator
 
 func genC17(rng *hx.Rng, tier string, w *hx.Writer) error {
@@ -456,6 +620,78 @@ func genC17(rng *hx.Rng, tier string, w *hx.Writer) error {
 	}
 	seed++
 	add(fmt.Sprintf("n=8,peers=1,drop=0,cancel=0,fault=peer-restarts,seed=%d", seed), "f:peer-restarts")
+	// histories over the connection tables, against Models/ConnTable.v
+	nh := 6
+	if tier == "thorough" {
+		nh = 60
+	}
+	for it := 0; it < nh; it++ {
+		L := 5 + rng.Intn(6)
+		up := []bool{true, true, true}
+		var evs, wire []string
+		for len(evs) < L {
+			id := rng.Intn(3)
+			switch k := rng.Intn(10); {
+			case k < 4:
+				ok := 0
+				if up[id] {
+					ok = 1
+				}
+				evs = append(evs, fmt.Sprintf("0.%d", id))
+				wire = append(wire, hx.L(hx.Zi(0), hx.Zi(id), hx.Zi(ok)))
+			case k < 6:
+				if up[id] {
+					evs = append(evs, fmt.Sprintf("1.%d", id))
+					wire = append(wire, hx.L(hx.Zi(1), hx.Zi(id)))
+				}
+			case k < 8:
+				if up[id] {
+					up[id] = false
+					evs = append(evs, fmt.Sprintf("2.%d", id))
+					wire = append(wire, hx.L(hx.Zi(2), hx.Zi(id)))
+				} else {
+					up[id] = true
+					evs = append(evs, fmt.Sprintf("4.%d", id))
+					wire = append(wire, hx.L(hx.Zi(4), hx.Zi(id)))
+				}
+			default:
+				evs = append(evs, fmt.Sprintf("3.%d", id))
+				wire = append(wire, hx.L(hx.Zi(3), hx.Zi(id)))
+			}
+		}
+		arg := "ev=" + strings.Join(evs, "+")
+		jobs = append(jobs, &c12job{
+			c:   hx.Case{Entry: "conntable", Op: 1, Args: hx.L(hx.L(wire...)), Tags: []string{"connection-tables", "nt"}},
+			sub: "c17-conntable", arg: arg, timeout: 90 * time.Second, group: "p2p-requests",
+			finish: func(out string) (string, bool) {
+				var vs []string
+				ok := true
+				for _, f := range strings.Fields(out) {
+					var cl, i, c int
+					fmt.Sscanf(f, "%d:%d:%d", &cl, &i, &c)
+					o := hx.L(hx.Zi(cl))
+					if cl == 0 {
+						o = hx.L(hx.Zi(0), hx.Zi(1))
+					}
+					if cl == 9 {
+						ok = false
+					}
+					vs = append(vs, hx.L(o, hx.Zi(i), hx.Zi(c)))
+				}
+				return hx.L(vs...), ok
+			},
+			explain: func(class, out, panicLine string) (string, string) {
+				sc := "driver sub c17-conntable " + arg
+				switch class {
+				case "P":
+					return "p2p-panic", "the p2p layer panicked (" + sc + "): " + panicLine
+				case "H":
+					return "p2p-wedged", "the scenario did not finish (" + sc + ")"
+				}
+				return "request-not-served", "a request to a reachable peer (or from one) failed, or returned another request's reply, in a history of peers going away and coming back (class 9 in: " + out + "; " + sc + ")"
+			},
+		})
+	}
 	runC12Jobs(jobs, w)
 	return nil
 }
